@@ -46,6 +46,11 @@ HOLD = [
 ]
 
 
+# requests that forward an upstream beat: {class: {outgoing valid: (upstream valid, upstream ready)}} -- each outgoing handshake
+# must consume the upstream beat, leave the state, or turn the valid off (a beat is issued once)
+UPSTREAM = {"AXI2AXILite": {"axi_lite.ar.valid": ("ax_beat.valid", "ax_beat.ready"), "axi_lite.aw.valid": ("ax_beat.valid", "ax_beat.ready")}}
+
+
 def _fx(ctx, rel, name, is_func):
     return fx_of(ctx, rel, func=name) if is_func else fx_of(ctx, rel, cls=name)
 
@@ -55,7 +60,7 @@ def run(ctx):
                    "ResetInserter not counted)", min_sites=7)
     ctx.rule("B2", "hold until ready: for every state that asserts an outgoing valid/stb and every exit of it, exit => ~valid | "
                    "ready; done/skid flags that gate a valid are set only by that channel's handshake and by every such handshake; each "
-                   "outgoing AXI valid is independent of the same channel's ready", min_sites=50)
+                   "outgoing AXI valid is independent of the same channel's ready", min_sites=52)
     ctx.rule("B3", "error discipline: the master-side resp/err of each bridge depends on the slave-side resp/err", min_sites=10)
     ctx.rule("B4", "address units: base_address meets a Wishbone word address only through the data-width derived shift; the "
                    "byte->word slice uses the same shift", min_sites=7)
@@ -77,7 +82,7 @@ def run(ctx):
             ctx.analysed["paths"] += nconf
             ctx.ob("B1", rel, name, f"fsm:{info.alias or info.name}", not problems, "; ".join(d for _, d in problems[:3]), info.node)
             s4_hold(ctx, "B2", fx, name, info, pairs)
-            s4_hold_flags(ctx, "B2", fx, name, info, pairs)
+            s4_hold_flags(ctx, "B2", fx, name, info, pairs, upstream=UPSTREAM.get(name))
         for vp, rp in pairs:
             if vp.endswith(".stb"):
                 continue
